@@ -64,6 +64,11 @@ def programs(seed, n):
         spec["tags"] = tags
         spec["c17_index"] = len(out)
         out.append(spec)
+    # hand-built family: sends whose payload combines several receives (fan-in towards lower
+    # ranks, ping-pong sums), every tag style
+    for spec in G.fanin_family():
+        spec["c17_index"] = len(out)
+        out.append(spec)
     return out
 
 
@@ -329,7 +334,7 @@ def _only_int_tags_differ(a, b):
 
 def run(ctx):
     from .. import common
-    nprog = 600 if ctx.thorough else 120
+    nprog = 600 if ctx.thorough else 100
     timeout = 120.0
     specs = programs(ctx.seed, nprog)
     sock = str(ctx.scratch / "c17dist.sock")
